@@ -344,6 +344,15 @@ func interpCases(c *Ctx, n int, tweak func(cfg *GenCfg, i int), post func(s *Sce
 		case "cappedWorldThen":
 			prog = g.cappedWorldThenProgram()
 			c.count("directed:cappedWorldThen")
+		case "wordMultiple":
+			prog = g.wordMultipleProgram()
+			c.count("directed:wordMultiple")
+		case "worldLookalike":
+			prog = g.worldLookalikeProgram()
+			c.count("directed:worldLookalike")
+		case "edgeLiteral":
+			prog = g.edgeLiteralProgram()
+			c.count("directed:edgeLiteral")
 		case "capVarReuse":
 			prog = g.capVarReuseProgram(cfg.OneSend)
 			c.count("directed:capVarReuse")
@@ -448,7 +457,7 @@ func init() {
 			cfg.Origins = i%5 == 0
 			cfg.Calls = false
 			cfg.WorldProb = 80
-			cfg.WorldSub = i%4 == 1
+			cfg.WorldSub = i%16 == 2 // (the only residue class of C01 that is generated freely is 2 mod 8)
 			cfg.MaxStmts = 5
 			switch i % 8 {
 			case 3:
@@ -470,6 +479,10 @@ func init() {
 				cfg.Directed = "effectsCarry"
 			}
 			cfg.SelfLead = i%8 == 2
+			if i%16 == 10 {
+				cfg.SelfLead = false
+				cfg.Directed = "worldLookalike"
+			}
 		}, nil)
 	}
 	registry["C02"] = func(c *Ctx) {
@@ -507,10 +520,14 @@ func init() {
 			cfg.SmallPool = i%4 == 1
 			cfg.OtherAssetLead = i%7 == 2
 			cfg.SelfLead = i%7 == 5
+			cfg.OutOfRangeLits = i%10 == 4
 			cfg.FreePrefix = i%5 == 4
 			switch i % 10 {
 			case 1:
 				cfg.Directed = "hugeSum"
+				if i%20 == 11 {
+					cfg.Directed = "wordMultiple"
+				}
 			case 3:
 				cfg.Directed = "keptSpan"
 			case 6:
@@ -528,6 +545,8 @@ func init() {
 			case 2:
 				if i%20 == 2 {
 					cfg.Directed = "nestedKept"
+				} else {
+					cfg.Directed = "edgeLiteral"
 				}
 			}
 		}, nil)
@@ -563,6 +582,8 @@ func init() {
 				cfg.Directed = "remainingFirst"
 			case 11, 19:
 				cfg.Directed = "cappedWorldThen"
+			case 13:
+				cfg.Directed = "worldLookalike"
 			}
 		}, nil)
 	}
